@@ -106,11 +106,18 @@ def run(ctx):
             jobs.append((img, 1, 1, {"comp": "none", "class": "bit1", "region": "crc+payload", "block": 1, "stored_len": blk["stored_len"], "bits": [x - lo * 8]}, s))
     ctx.add("images", len(jobs))
 
-    def verify(job):
-        p = subprocess.run([tools["verify"], job[0]], stdout=subprocess.PIPE, stderr=subprocess.PIPE, text=True, env=dict(os.environ, LC_ALL="C"), timeout=120)
+    venvs = [rng.choice([None, None, "0", "1"]) for _ in jobs]
+
+    def verify(job_i):
+        i, job = job_i
+        e = dict(os.environ, LC_ALL="C")
+        e.pop("MTBL_READER_MADVISE_RANDOM", None)
+        if venvs[i] is not None:
+            e["MTBL_READER_MADVISE_RANDOM"] = venvs[i]
+        p = subprocess.run([tools["verify"], job[0]], stdout=subprocess.PIPE, stderr=subprocess.PIPE, text=True, env=e, timeout=120)
         return (": OK" in p.stdout, p.returncode)
     with ThreadPoolExecutor(max_workers=16) as ex:
-        vres = list(ex.map(verify, jobs))
+        vres = list(ex.map(verify, list(enumerate(jobs))))
     # reader runs: iterate (drain), get (one next), seek (drain from a key in a later block)
     lines, plan = [], []
     for ji, (img, bad, nb, label, s) in enumerate(jobs):
@@ -133,7 +140,9 @@ def run(ctx):
         if label.get("region") == "crc+payload":
             runs = runs[:1] + runs[3:4]
         for run_ in runs:
-            L = ["r_init 0 %s 1 0" % img]
+            # the library's documented environment knob for the reader's madvise behaviour: unset, "0", "1" (must not matter)
+            envv = rng.choice(["-", "-", "0", "1"])
+            L = ["setenv MTBL_READER_MADVISE_RANDOM " + envv, "r_init 0 %s 1 %d" % (img, rng.randint(0, 1))]
             for si, (kind, target) in enumerate(run_):
                 L += seg_lines(si + 1, kind, target)
             L += ["r_destroy 0", "---"]
@@ -150,7 +159,7 @@ def run(ctx):
     xbase = 0
     for i in range(0, len(execs_l), 6000):
         chunk = [ln for ex in execs_l[i:i + 6000] for ln in ex]
-        evs, rc, err = core.run_drv(b, "\n".join(chunk) + "\n", wd, "r%d" % i, fork=True, timeout=3000, env={"ASAN_OPTIONS": "detect_leaks=0:exitcode=99"})
+        evs, rc, err = core.run_drv(b, "\n".join(chunk) + "\n", wd, "r%d" % i, fork=True, timeout=3000, env={"ASAN_OPTIONS": "detect_leaks=0:exitcode=99", "VS_EXEC_TIMEOUT": "20"})
         cur = None
         for e in evs:
             if e["e"] == "Reset":
